@@ -248,6 +248,8 @@ type c19 struct {
 	nQ           int
 	scrat        []string
 	cwd          string // working directory to restore (set when a run changed it)
+	lastEdit     string
+	recentQ      []string
 }
 
 func (c *c19) newLut(kind string) *lut {
@@ -341,6 +343,12 @@ func (c *c19) newLut(kind string) *lut {
 func (c *c19) edit(l *lut) {
 	t := c.t
 	p := c19Path(t)
+	if len(c.recentQ) > 0 && t.Choose(3) == 0 {
+		if q := c.recentQ[t.Choose(len(c.recentQ))]; q != "/" && q != "" {
+			p = q // (never the root itself: edits are made below it)
+		}
+	}
+	c.lastEdit = p
 	c.nVer++
 	content := fmt.Sprintf("%s:%s#%d", l.kind, p, c.nVer)
 	if t.Choose(10) == 9 {
@@ -712,6 +720,15 @@ func RunC19(env *sim.Env) {
 						p = Dir(p)
 					}
 				}
+			}
+			// what was just edited (created, replaced by a directory, removed) is asked for again, and what
+			// was asked for is edited next: a loader that remembers an answer must notice the edit
+			if c.lastEdit != "" && t.Choose(4) == 0 {
+				p = c.lastEdit
+			}
+			c.recentQ = append(c.recentQ, p)
+			if len(c.recentQ) > 3 {
+				c.recentQ = c.recentQ[1:]
 			}
 			spelled := p
 			if kind == "inmem" {
